@@ -29,6 +29,39 @@ CLAIMS = {
         "Modelled: str.startswith/lstrip/index/set semantics; numpy fancy indexing.",
         "DESIGN.md §5 C10",
     ),
+    "C06": (
+        "Lean theorems about the transcribed 1-D kernel (double loop with the parity skip and the (m-1)!! table), for all "
+        "n1, n2 and all arguments in any field: it is the binomial double sum against the Gaussian moments, is symmetric "
+        "under exchanging the two functions, has K00 = 1 and satisfies the Obara-Saika recurrences in both indices "
+        "(a complete algebraic characterisation of the Gaussian overlap integrals); K(n,n) at coincident centres and "
+        "the rational part of the normalisation N^2 * <g|g> = 1; and over the reals (Mathlib), when present in "
+        "Props/C06.lean, kernel_eq_integral. Assembly: exchange of the two shells transposes every Cartesian block "
+        "(including screening decisions), only centre differences enter, identical bases give a symmetric matrix, two "
+        "bases transpose, conventions act as the C10 signed permutation on rows and columns, non-L2 / missing geometry "
+        "are rejected with ValueError / TypeError. The Cartesian->pure tables l<=7 (regenerated from source each run as "
+        "exact dyadic rationals) are proved, by rational interval arithmetic in the kernel, to be harmonic, orthonormal "
+        "w.r.t. the exact Cartesian Gram matrix, of cos/sin(m phi) symmetry with the documented sign, within 1e-12. "
+        "PSD and the size of what the 1e-15 screening drops are NOT proved (checked numerically).",
+        "Lean 4 proof (polynomial functional / Finset sums / ring; decide +kernel interval arithmetic over generated tables) "
+        "+ exact-rational and error-bounded double correspondence with the real code + independent textbook evaluator",
+        "Modelled, not verified: IEEE arithmetic of numpy (comparisons use model-derived forward error bounds); the final-state "
+        "form of the block writes; exp/sqrt/pi are abstract in the assembly theorems.",
+        "DESIGN.md §5 C06",
+    ),
+    "C04": (
+        "Finite proof by kernel evaluation over tables regenerated from /repo on every run: each of the ten conversion "
+        "constants of iodata/utils.py is within 1e-8 of the value derived in Q from CODATA 2018 and CODATA 2022 (typed "
+        "independently in Lean); every probed effective unit factor of a reader or writer (token-perturbation probes of "
+        "25 formats, ~60 format/quantity lines) equals the constant of the unit the format prescribes (hand-written spec "
+        "table with citations) to 1e-9; every spec line is probed; load x dump across formats is the identity. The "
+        "rows GAMESS/Q-Chem/QCSchema masses (amu) and Q-Chem dipole/quadrupole (Debye) are excluded from "
+        "units_table_partial, witnessed by units_table_violated_* theorems and reported as KNOWN-FINDING.",
+        "Lean 4 decide +kernel over generated probe tables + fresh random probes judged by the compiled model + direct search "
+        "(independent CODATA numbers, two-format round trips, atomic-mass plausibility)",
+        "Trusted: the prober (regex tokenisation, getters) and the hand-written spec/CODATA digits. Linear response of "
+        "readers/writers in the probed number is assumed (checked on several tokens).",
+        "DESIGN.md §5 C04",
+    ),
 }
 
 NOT_YET = {}
